@@ -139,6 +139,21 @@ func c06scenarios(probe string) []c06scn {
 			"svc.d/d.go": goIface("d", "D"), "svc.d/e/e.go": goIface("e", "E")}
 		out = append(out, c06scn{"recursive packages whose paths sort around the separator", files, cfg})
 	}
+	{ // one output file per interface: whatever state is kept between files (import registries, qualifiers,
+		// reserved names) must not leak from the files rendered earlier, in whatever order they are visited
+		cfg := testifyRoot()
+		cfg["all"] = true
+		cfg["formatter"] = "noop"
+		cfg["filename"] = "mock_{{.InterfaceName}}_test.go"
+		cfg["packages"] = core.M{P("use"): core.M{}, P("use2"): core.M{"config": core.M{"template": "matryer"}}}
+		src := func(pkg string) string {
+			return "package " + pkg + "\n\nimport (\n\t\"net/url\"\n\n\tx \"example.com/m/x/v1\"\n\ty \"example.com/m/y/v1\"\n)\n\n" +
+				"type Fetcher interface{ Fetch(u *url.URL) error }\n\ntype Getter interface{ Get(url string, v1 int) string }\n\n" +
+				"type UsesX interface{ A(a x.T) x.T }\n\ntype UsesY interface{ B(b y.T) y.T }\n\ntype Plain interface{ C(v10 int, url0 string) (url1 error) }\n"
+		}
+		files := map[string]string{"x/v1/t.go": "package v1\n\ntype T struct{}\n", "y/v1/t.go": "package v1\n\ntype T struct{}\n", "use/use.go": src("use"), "use2/use.go": src("use2")}
+		out = append(out, c06scn{"one file per interface, imports and parameter names that collide across files", files, cfg})
+	}
 	return out
 }
 
